@@ -81,7 +81,10 @@ GRADIENTS = ['linear-gradient(red, blue)', 'linear-gradient(rgba(255,0,0,0.5), b
              'linear-gradient(to right, rgba(0,0,0,0), rgba(0,0,255,0.25) 50%, red)', 'radial-gradient(blue, blue)',
              'repeating-linear-gradient(red, rgba(0,128,0,0.5) 5px)', 'linear-gradient(transparent, transparent)',
              # laid out as one solid colour (zero-length repeating gradient): rectangle / set_color / fill
-             'repeating-linear-gradient(red 5px, blue 5px)', 'repeating-radial-gradient(red 0, rgba(0,0,255,0.5) 0)']
+             'repeating-linear-gradient(red 5px, blue 5px)', 'repeating-radial-gradient(red 0, rgba(0,0,255,0.5) 0)',
+             # stop positions that need the computed value (unitless 0, font-relative, absolute units): fixed finding
+             # gradient-stop-length-not-computed
+             'linear-gradient(red 0, blue 1em)', 'radial-gradient(rgba(255,0,0,0.5) 0, blue 2pt, green 1ex)']
 
 
 def svg_uri(rng):
